@@ -216,6 +216,16 @@ class World:
         if out.status == "ok" and is_spec_instance(out.value) and self.role_of(out.value) in ("host", "sub"):
             if not any(v is out.value for v in self.insts.values()):
                 self.insts[op["id"]] = out.value
+        kept = getattr(self.built, "kept", None)
+        if kept:
+            # copies a __post_init__ kept of the instance under construction: live instances like any other
+            if op["op"] == "new" and out.status == "ok":
+                for j, k in enumerate(kept[:2]):
+                    if is_spec_instance(k) and self.role_of(k) in ("host", "sub") and \
+                            not any(v is k for v in self.insts.values()):
+                        # (an id derived from the constructing operation: the same in a twin world)
+                        self.insts[100000 + op["id"] * 4 + j] = k
+            del kept[:]
 
     def fresh_id(self):
         self.next_id += 1
@@ -452,6 +462,8 @@ class OpGen:
             kw["q"] = s.choice(bad_values("str")) if bad and "p" not in kw else self.good("str")
         if bad and s.chance(0.2):
             kw["bogus"] = 1
+        if self.w.spec["leaf"].get("inv") and s.chance(0.5):
+            kw = {"w": self.good("int"), **kw}  # named before the attribute that invalidates it
         return kw
 
     def _kitem_kw(self, bad=False, with_key=False):
@@ -519,8 +531,10 @@ class OpGen:
                         keys = [_raw(e, "k") for e in items if isinstance(_raw(e, "k"), str)]
                         kw["_index"] = s.choice(keys) if keys and s.chance(0.8) else "zz"
                 elif form == "kw":
-                    if s.chance(0.3) and n:
+                    if s.chance(0.4) and n:
                         kw["_index"] = an_index()
+                        if s.chance(0.45):
+                            kw["_insert"] = True  # a brand-new element built from keywords goes in at that position
                     if ik == "leaf":
                         kw.update(self._leaf_kw(bad))
                     else:
@@ -677,6 +691,11 @@ class OpGen:
                     kw[n] = ["sent", "MISSING"]
             if bad and not chosen:
                 kw["bogus"] = 1
+            if self.p["p_returner"] and kw and s.chance(self.p["p_returner"] * 0.6):
+                # update(<replacement instance>, **kw): the keywords go onto (a copy of) another live instance
+                peers = [i2 for i2, o2 in self.w.insts.items() if i2 != iid and type(o2) is type(inst)]
+                if peers:
+                    args.append(["inst", s.choice(peers)])
         elif which == "transform":
             k = s.randint(1, min(2, len(names))) if names else 0
             chosen = s.sample(names, k) if k else []
@@ -702,7 +721,7 @@ class OpGen:
         else:
             pass
         self.flags(kw, inplace)
-        if kw.get("_inplace") and args and isinstance(args[0], list) and args[0][0] == "ret":
+        if kw.get("_inplace") and args and isinstance(args[0], list) and args[0][0] in ("ret", "inst"):
             # (a whole-value transform that swaps in another object has no in-place reading: the receiver cannot become it)
             args = []
         return {"op": "call", "on": {"i": iid}, "m": which, "args": args, "kw": kw}
